@@ -1,23 +1,59 @@
 NOTES = ('All checks: ./check <id> --tier quick|thorough. Exit 0 = held on everything explored (KNOWN-FINDING lines allowed), '
          '1 = unlisted reproduced violation (VIOLATION line), 2 = harness/self-validation error (no verdict). '
-         'Every query is decided by CrossHair/z3 over the real code imported from /repo at run time; inconclusive queries are '
-         'listed in the evidence and never counted as held.')
+         'Every query is decided by CrossHair/z3 over the real code imported from /repo at run time (numpy/automap/concurrent.futures bound '
+         'to contract models); inconclusive queries are listed in the evidence and never counted as held. Genuine defects found on the '
+         'original tree were repaired by "fix:" commits in /repo or recorded in known_findings.json (see DESIGN.md section 6).')
 
-_NA_PENDING = 'check not built yet in this session (see DESIGN.md section 5 for the plan); not claimed'
+_T = ('symbolic execution of the real static-frame functions (CrossHair + z3) over NumPy/automap contract models; bounded; '
+      'every counterexample replayed on the unmodified library with real NumPy')
+
+_N = ('NumPy, automap (and concurrent.futures where used) are replaced by the contract models in vf/npmodel, validated against the real '
+      'libraries by start-up self-tests, by per-condition trace validation and by running the repo\'s own unit tests on the model; '
+      'cells range over Z u {NaN} (|v| <= 2**53), no IEEE rounding / int64 wrap-around; outside: ')
 
 CHECKS = {
- 'C10': dict(
-   text='Bounded symbolic check: for every value of the symbolic cells (unbounded ints or NaN), labels and option flags, '
-        'TypeBlocks/Series/Frame.equals equals the cell-wise reference, is symmetric and (on triples) transitive; compare_name/'
-        'compare_dtype/compare_class add exactly their conjunct; FrameHE ==/!= are plain bools consistent with equals and equal '
-        'frames hash equal. Bounds: 1x2 and 2x2 shapes, listed block layouts.',
-   note='NumPy/automap replaced by contract models (vf/npmodel) validated against the real libraries; hash() operands are made '
-        'concrete by bounded case split; Bus.equals, string/datetime cells outside.'),
+ 'C01': dict(text='Bounded symbolic check of immutability: arrays of every result of ~37 Frame operations are read-only and the source snapshot and flags are unchanged (also when the call raises); containers built from caller arrays with symbolic writeable flags / view status are unaffected by later caller writes; deepcopy / copy / pickle round trips keep content and read-only status.',
+             note=_N + 'freeze sites not reachable from the listed operations; sequences of calls are covered as one arbitrary call from a constructed state plus snapshot invariance.'),
+ 'C02': dict(text='Bounded symbolic check of the label<->position bijection: for all (int, |v|<=2**53) label values of 3-4 labels and a probe, constructor rejects duplicates, loc_to_iloc(l_i)==i, membership, len, iteration, reversed, values, positions agree with the list; grow-only histories (append/extend, caches materialised in between, float-equal-to-position label); derived indices (drop, roll, sort, iloc, set algebra); depth-2 hierarchies (tree check, grow then derive).',
+             note=_N + 'datetime-typed indices, string/mixed labels, hierarchy depth > 2, sizes > 4.'),
+ 'C03': dict(text='Differential check inside the solver: the same symbolic cells packed into block layout L and into the canonical layout give identical results (shape, per-column dtype kind, every cell, raised error class) and match a list reference for 10 TypeBlocks operations; Frame constructor rejects label counts that do not match the blocks.',
+             note=_N + 'Frame-level methods not listed, dtype kinds other than int64, shapes beyond 2x3 (quick).'),
+ 'C04': dict(text='Bounded symbolic check of selection: for every int / slice (start, stop any int with |v|<=2**53 or None; step fixed per query, |step|<=3) / 3-entry list / Boolean mask key on 2-3 x 4 frames in several block layouts the result equals Python list indexing (cells, labels paired with cells, result kind, IndexError/KeyError exactly when out of range/absent); label slices include the stop; Boolean Series keys align by label; bloc selection; auto-index slice-then-loc.',
+             note=_N + 'datetime indices, hierarchical indices (C05), Bus/Quilt selection, |step| > 3 (quick).'),
+ 'C05': dict(text='Bounded symbolic check of hierarchical selection on concrete ragged trees (depth 2 and 3): per-level selectors (label / 2-label list in either order / label slice / all / innermost Boolean mask) with symbolic contents select exactly the matching positions in the specified order through IndexHierarchy.loc_to_iloc and Series/Frame.loc; all views of the hierarchy describe the same tuples.',
+             note=_N + 'outer-depth Boolean masks, selectors matching nothing, inner label slices on ragged trees, datetime levels, depth 4.'),
+ 'C06': dict(text='Bounded symbolic check of label alignment: Series/Frame binary operators (+, -, <, ==, scalar and reflected forms, Frame with Series) with symbolic right-operand labels (overlap / disjoint / permuted) and symbolic cells give the union of labels, op(a,b) where both have the label and the missing marker elsewhere, independent of operand order; equal indices keep order and dtype.',
+             note=_N + 'float arithmetic, *, /, **, matmul, string dtypes, hierarchical labels.'),
+ 'C07': dict(text='Bounded symbolic check of dtype resolution and merging sites: the real resolve_dtype over every ordered pair of a 25-dtype universe (pair chosen by symbolic indices) holds both inputs, is symmetric and idempotent; resolve_dtype_iter is fold-order independent; at 9 merging sites x 5 array dtypes a supplied element of symbolic kind (bool/int/big int/NaN/None/str/tuple) is read back with the same value and type and untouched columns keep their dtype.',
+             note=_N + 'str<->bytes mixing, structured dtypes, datetime units beyond D/s/Y.'),
+ 'C08': dict(text='Bounded symbolic check of functional updates: mask / assign / drop / astype with symbolic slice (any start/stop, fixed step), list and Boolean keys over several block layouts equal the list reference (exactly the addressed cells), assigned labelled Series aligns by label whatever the key order, bloc assignment with differently blocked value frames, Series assign/drop/mask, relabel/rename/insert; the original snapshot is unchanged.',
+             note=_N + 'clip/apply forms, hierarchical labels, shapes beyond 2x4 (quick).'),
+ 'C09': dict(text='Bounded symbolic check of grow-only histories: for every choice of new / duplicate / in-call duplicate labels in 1-2 growth calls (setitem, extend(Frame|Series), extend_items) accepted calls only append, rejected calls leave the full snapshot and label/data coherence unchanged, and containers derived earlier (to_frame, to_frame_go, selection, constructor, static->go) never change; IndexGO / IndexHierarchyGO extend.',
+             note=_N + 'histories longer than 2 calls (quick), growth racing with iteration.'),
+ 'C10': dict(text='Bounded symbolic check of equals/hash: for every value of the symbolic cells (ints or NaN), labels and option flags, TypeBlocks/Series/Frame.equals equals the cell-wise reference, is symmetric and (on triples) transitive; compare_name/compare_dtype/compare_class add exactly their conjunct; FrameHE ==/!= are plain bools consistent with equals and equal frames hash equal.',
+             note=_N + 'Bus.equals, string/datetime cells, shapes beyond 2x2 / 1x3.'),
+ 'C11': dict(text='Bounded symbolic check of concatenation/overlay: Frame.from_concat on both axes (union/intersection) over block-compatible and incompatible layouts with symbolic aligned-axis labels, cells and fill value places every input cell once at its own labels and the fill elsewhere; duplicate concatenated labels are rejected unless a replacement index is given; from_concat_items builds two-level labels; Series.from_concat; from_overlay takes the first non-missing value per cell.',
+             note=_N + 'more than 2 inputs (quick), hierarchical input labels, generator inputs beyond consumed-once.'),
+ 'C12': dict(text='Bounded symbolic check of sorting: sort_values (1-2 keys), sort_index, sort_columns, key functions and depth-2 hierarchical labels with symbolic keys (ties possible) keep (label,row) associations, order the keys, are stable and reverse exactly when descending; the NumPy model answers non-stable sort kinds with any valid tie arrangement (symbolic tape).',
+             note=_N + 'NaN/string keys, more than 4 rows, 3 key columns.'),
+ 'C13': dict(text='Bounded symbolic check of grouping and windows: groups (Series, Frame both axes, sort-and-slice and unique/mask paths, label-depth grouping) with symbolic keys in 0..2 partition the container with constant keys and kept order; windows equal the reference for symbolic window_sized / label_shift / start_shift / size_increment with size and step fixed per query.',
+             note=_N + 'object/mixed-type keys, more than 4 rows, window parameters beyond the stated ranges.'),
+ 'C14': dict(text='Bounded symbolic check of missing-value operations: one solver Boolean per cell decides whether it is missing, so every missing pattern of the shape is covered; directional fills (both axes, limit 0..2, fills crossing block boundaries), sided fills, isna/notna/dropna/fillna (element and label-aligned container)/count equal a per-line Python reference and never alter a non-missing cell.',
+             note=_N + 'NaT/datetime and string columns, shapes beyond 2x4 / 3x2 (quick).'),
+ 'C15': dict(text='Bounded symbolic check of axis reductions: sum/min/max/all/any/cumsum/loc_min/loc_max over symbolic cells with symbolic missing flags equal the independent per-column/per-row computation for every block layout tried and both skipna settings; mean/median/std/var are checked as uninterpreted reductions (same cells, order, variant).',
+             note=_N + 'floating-point values of mean/median/std/var, prod over symbolic cells, string/datetime columns, 0-sized axes.'),
+ 'C17': dict(text='Bounded symbolic check of Bus laziness and LRU bound over an in-memory store stub: for every access history (symbolic positions, int/list/loc/drop accesses, max_persist None/1/2/3, per-label store configs) the returned Frame is the stored one, the loaded set equals a reference LRU, the bound holds and only necessary labels are read with their own config; Store mtime coherence for arbitrary file-system answers.',
+             note=_N + 'ON-DISK FAITHFULNESS OF THE zip/SQLite/XLSX/HDF5 ENCODINGS IS NOT CHECKED (I/O and C libraries): only laziness, LRU bound, derived-Bus behaviour and stale-file detection are decided.'),
+ 'C18': dict(text='Bounded symbolic check of parallel == sequential: apply_pool (values and items forms) and Batch with max_workers over an executor contract model whose task completion order is a symbolic permutation: results equal the sequential form and the label->f(value) reference for every order, chunksize and worker count; a failing task raises out of the result / is dropped by apply_except without shifting labels.',
+             note=_N + 'real OS scheduling and process pools, zip store read/write pools; decided modulo the documented concurrent.futures contract.'),
+ 'C19': dict(text='Bounded symbolic check of Quilt and Batch: Quilt.iloc with symbolic int / slice / list keys on the Quilt axis and symbolic opposite-axis keys (both axes, retain_labels on/off) equals the same selection on the list concatenation of the member frames; shape, labels, to_frame, iteration; Batch chained operations pair every label with the result for that label.',
+             note=_N + 'Quilt windows/export, stores behind the Bus, more than 2 member frames (quick).'),
+ 'C20': dict(text='Bounded symbolic check of relational reshaping: joins (inner/left/right/outer) with symbolic key values (1:1, 1:n, n:m, no match) equal the nested-loop reference; pivot (sum) equals the dict-of-rows group-aggregate; set_index/unset_index, relabel_shift_in/out and pivot_stack/unstack round trips restore every cell.',
+             note=_N + 'function maps, multi-field columns beyond 2, join templates, joins on label depths.'),
 }
+for _d in CHECKS.values():
+    _d['technique'] = _T
 
 NOT_APPLICABLE = {
- 'C16': 'round trip is decided by csv/genfromtxt/pickle C code: CrossHair realises every symbolic string there, so a run would enumerate concrete files rather than give a solver verdict (DESIGN.md section 7)',
+ 'C16': 'round trip is decided by csv/genfromtxt/pickle C code: CrossHair realises every symbolic string there, so a run would enumerate concrete files rather than give a solver verdict over text; a string-theory model of RFC 4180 would model the csv module, not this code base (DESIGN.md section 7)',
 }
-for _p in ['C01','C02','C03','C04','C05','C06','C07','C08','C09','C11','C12','C13','C14','C15','C17','C18','C19','C20']:
-    if _p not in CHECKS:
-        NOT_APPLICABLE[_p] = _NA_PENDING
